@@ -201,6 +201,9 @@ type loopRunner struct {
 	prevNewest    map[string]Ver
 	oldSnapName   string
 	realFuture    uint64
+	heldRelease   chan struct{}
+	heldDone      chan error
+	heldFinish    func()
 	injectedTimes []time.Time // timestamps of the injected remote snapshots, in injection order (= merge order)
 	mergedBase    int         // injected snapshots consumed or dropped before the current run
 }
@@ -466,25 +469,80 @@ func runLoopBehaviour(R *Result, in loopInput, beh []loopStep, bi int) error {
 			continue
 		case "app":
 			before := uint64(time.Now().UnixNano())
-			if in.Native {
-				err = lr.appWriteNative(a.K, a.V, 0)
-			} else if a.V == -1 {
-				err = w.ShadowDel(1, a.K)
-			} else {
-				err = w.ShadowPut(1, a.K, a.V)
+			// every other behaviour: when the loop is about to take the write lock (LoadOnce / shadow SendOnce), the
+			// application already holds it with an open transaction and commits only after the loop has started to
+			// wait - the same behaviour in the specification (commit before the LS transaction), another schedule in
+			// the code (anything LS sampled before acquiring the lock is stale)
+			held := false
+			if bi%2 == 1 && lr.heldRelease == nil && lr.done != nil {
+				free := map[string]bool{"start.sent": true, "loop.top": true, "loop.next": true, "load.done": true, "check.before": true,
+					"send.stored": true, "send.committed": true, "loop.sleep": true}
+				for j := si + 1; j < len(beh); j++ {
+					n := beh[j].Act
+					if n.Name == "inject" || n.Name == "deliverown" || (n.Name == "run" && free[n.To]) {
+						continue // nothing here reads or writes the LMDB
+					}
+					held = n.Name == "run" && (n.To == "load.txnDone" || (n.To == "send.txnDone" && !in.Native))
+					break
+				}
 			}
-			if err != nil {
+			var pdbBefore map[string]Ver
+			if !in.Native {
+				pdbBefore, _, _ = w.Project(1, in.NKeys, st.Clock)
+			}
+			doCommit := func(hold chan struct{}) error {
+				inst := w.Insts[1]
+				return inst.Env.Update(func(txn *lmdb.Txn) error {
+					dbi, err := txn.OpenDBI(w.DBIName, w.dbiFlags())
+					if err != nil {
+						return err
+					}
+					if in.Native {
+						ts := uint64(time.Now().UnixNano())
+						var fl byte
+						var val []byte
+						if a.V == -1 {
+							fl = 1
+						} else {
+							val = w.Conc.Val[a.V]
+						}
+						err = txn.Put(dbi, w.key(a.K), MakeRaw(ts, uint64(txn.ID()), fl, 0, val), 0)
+					} else if a.V == -1 {
+						err = txn.Del(dbi, w.key(a.K), nil)
+					} else {
+						err = txn.Put(dbi, w.key(a.K), w.Conc.Val[a.V], 0)
+					}
+					if hold != nil {
+						<-hold
+					}
+					return err
+				})
+			}
+			finishApp := func() {
+				lr.appLast[a.K] = a.V
+				_ = before
+				lr.appCommits = append(lr.appCommits, appCommit{a.K, a.V, w.lastTxn(1), st.Clock, a.At == "boot" || a.At == "start.listed",
+					!in.Native && a.V == -1 && pdbBefore[strconv.Itoa(a.K)].Absent()})
+				lr.sinceStore = true
+				if a.Window {
+					windowUsed = a.At
+				}
+			}
+			if held {
+				lr.heldRelease = make(chan struct{})
+				lr.heldDone = make(chan error, 1)
+				rel := lr.heldRelease
+				go func() { lr.heldDone <- doCommit(rel) }()
+				time.Sleep(2 * time.Millisecond) // the application's transaction is open now
+				lr.heldFinish = finishApp
+				R.Count("held_app_commits", 1)
+				continue // the state changes when the commit is released during the next step
+			}
+			if err := doCommit(nil); err != nil {
 				return fmt.Errorf("app commit: %w", err)
 			}
-			lr.appLast[a.K] = a.V
-			_ = before
-			pdb, _, _ := w.Project(1, in.NKeys, st.Clock)
-			lr.appCommits = append(lr.appCommits, appCommit{a.K, a.V, w.lastTxn(1), st.Clock, a.At == "boot" || a.At == "start.listed",
-				a.V == -1 && pdb[strconv.Itoa(a.K)].Absent()})
-			lr.sinceStore = true
-			if a.Window {
-				windowUsed = a.At
-			}
+			// NoVer is computed from the content before the commit in the plain path
+			finishApp()
 		case "inject":
 			upd := lr.buildUpdate(a.Img, "remote1", now)
 			lr.injectedTimes = append(lr.injectedTimes, upd.NameInfo.Timestamp)
@@ -595,6 +653,15 @@ func runLoopBehaviour(R *Result, in loopInput, beh []loopStep, bi int) error {
 				case <-time.After(5 * time.Second):
 					return fmt.Errorf("loop goroutine is not parked")
 				}
+				if lr.heldRelease != nil && (a.To == "load.txnDone" || a.To == "send.txnDone" || a.To == "dead") {
+					time.Sleep(3 * time.Millisecond) // the loop is waiting for the write lock now
+					close(lr.heldRelease)
+					lr.heldRelease = nil
+					if e := <-lr.heldDone; e != nil {
+						return fmt.Errorf("held app commit: %w", e)
+					}
+					lr.heldFinish()
+				}
 				ev, err = lr.waitPark()
 			}
 			if err != nil {
@@ -667,6 +734,9 @@ func runLoopBehaviour(R *Result, in loopInput, beh []loopStep, bi int) error {
 					bad("C05", "upload-before-own-merged", si, nil, "a snapshot was stored before the instance's own old snapshot had been merged")
 				}
 			}
+		}
+		if lr.heldRelease != nil {
+			continue // the application's transaction is still open: its effect is not visible yet
 		}
 		// ---- state comparison
 		nowAbs := st.Clock
